@@ -53,13 +53,19 @@ def documented(t):
     return names + TOP
 
 
-def make_occupied(tname):
+SWITCHES = [(True, True, True), (False, True, True), (True, False, True), (True, True, False), (False, False, False)]
+
+
+def make_occupied(tname, kind):
+    """kind: occupant kind, or None for 'no generated name occupied'"""
     t = TEMPLATES[tname]
     doc = documented(t)
     pool = doc + DUNDER
 
-    def h(ni: int, kd: int, occ: bool, init_: bool, repr_: bool, eq_: bool, lazy: bool) -> str:
-        body = {"__annotations__": dict(t["ann"]), "__module__": __name__, "__qualname__": "T"}
+    def h(ni: int, sw: int, lazy: bool) -> str:
+        init_, repr_, eq_ = pick(SWITCHES, sw)
+        occ = kind is not None
+        body = {"__annotations__": {**t["ann"]}, "__module__": __name__, "__qualname__": "T"}
         body.update(t["dflt"])
 
         def helper_method(self):
@@ -70,9 +76,9 @@ def make_occupied(tname):
         occupied = None
         if occ:
             occupied = pick(pool, ni)
-            body[occupied] = occupant(pick(KINDS, kd))
-        original = dict(body)
-        cls = type("T", (), dict(body))
+            body[occupied] = occupant(kind)
+        original = {**body}
+        cls = type("T", (), {**body})  # ({**d} rather than dict(d): CrossHair's dict() builds its own map type)
         cls = spec_class(init=bool(init_), repr=bool(repr_), eq=bool(eq_), bootstrap=not lazy)(cls)
         if lazy:
             cls.__spec_class__  # first trigger
@@ -130,8 +136,8 @@ def make_selection():
         colls = {"nums": "num"} if "nums" in managed else {}
         if kind == "attrs_typed":
             colls = {"z": "z_item"}
-        original = dict(body)
-        cls = spec_class(bootstrap=not lazy, **kw)(type("T", (), dict(body)))
+        original = {**body}
+        cls = spec_class(bootstrap=not lazy, **kw)(type("T", (), {**body}))
         if lazy:
             cls.__spec_class__
         want = []
@@ -151,9 +157,9 @@ def make_collision():
     def h(sel: int, lazy: bool) -> str:
         kind = pick(["item/items", "x/xs", "fallback-taken", "no-collision"], sel)
         ann = {"item/items": {"item": int, "items": List[int]}, "x/xs": {"xs": List[int], "x": int}, "fallback-taken": {"item": int, "items": List[int], "items_item": int}, "no-collision": {"item": int, "things": List[int]}}[kind]
-        body = {"__annotations__": dict(ann)}
+        body = {"__annotations__": {**ann}}
         try:
-            cls = spec_class(bootstrap=not lazy)(type("T", (), dict(body)))
+            cls = spec_class(bootstrap=not lazy)(type("T", (), {**body}))
             if lazy:
                 cls.__spec_class__
             exc = None
@@ -192,8 +198,11 @@ def obligations(tier):
     T = 300 if tier == "quick" else 900
     for tname in TEMPLATES:
         n = len(documented(TEMPLATES[tname])) + 3
-        warm = [(i, k, occ, True, True, True, lz) for i in range(0, n, 3) for k in range(len(KINDS)) for occ in (True, False) for lz in (False, True)]
-        obs.append(Ob(f"C16.occupied.{tname}", make_occupied(tname), warm, f"template {tname}: the class body defines one of the {n} generated names itself (or none), as {KINDS}; init/repr/eq switches and lazy/eager symbolic; identities checked after decoration and after first use of every helper. Selector-only: finite space exhausted through the solver, no numeric quantity.", expect={"ok"}, timeout=T))
+        for kind in [None] + KINDS:
+            if tier == "quick" and tname == "private" and kind not in (None, "function", "falsy-none"):
+                continue
+            warm = [(i, sw, lz) for i in range(0, n, 4) for sw in (0, 4) for lz in (False, True)]
+            obs.append(Ob(f"C16.occupied.{tname}.{kind or 'none'}", make_occupied(tname, kind), warm, f"template {tname}: the class body defines {'one of the ' + str(n) + ' generated names itself as a ' + kind if kind else 'no generated name'}; which name, the init/repr/eq switch combination (5) and lazy/eager are symbolic selectors; identities checked after decoration and after first use of every helper. Selector-only: finite space exhausted through the solver, no numeric quantity.", expect={"ok"}, timeout=T))
     obs.append(Ob("C16.selection", make_selection(), [(s, lz) for s in range(5) for lz in (False, True)], "attrs / attrs_typed / attrs_skip selections x lazy/eager (selector-only)", expect={"ok"}, timeout=T))
     obs.append(Ob("C16.collision", make_collision(), [(s, lz) for s in range(4) for lz in (False, True)], "attribute-name pairs whose singular/plural forms collide, fallback free or taken, x lazy/eager (selector-only)", expect={"ok", "RuntimeError"}, timeout=T))
     return obs
